@@ -9,7 +9,7 @@ P("C35",
             "after the fix; exact tie on SQLite contents read back with the datareader",
   level_text="c35_seq_exactly_once: for every set of table shapes, batch size, history of InsertData/Flush calls and EVERY map iteration "
              "order per flush (oracle), then Close: unless a call panicked, each table's rows (location ids resolved as the reader does) are "
-             "exactly its inserted entries, in order, once, every non-ignored field unchanged, no buffer left. c35_location_bijection: ids "
+             "exactly its inserted entries, in order, once, every non-ignored field unchanged, no buffer left. c35_no_panic: no call panics when names are distinct and every entry has its table's shape with storable plain and string location fields. c35_location_bijection: ids "
              "are 1..n in row order, strings distinct, every stored id is a key. c35_value_domain_refuted (uint64 >= 2^63, complex: known "
              "findings). c35_concurrent_old_refuted: two witness schedules of the pre-fix InsertData||Flush (double BEGIN panic; silently "
              "lost entry); c35_concurrent_fixed_3: exhaustive over all schedules of 3 inserters, batch 1..4, for the fixed locking.",
